@@ -217,7 +217,36 @@ class TableEval:
             if not self.truth(self.ev(st.test), st.test):
                 raise Rz("AssertionError")
             return
+        if isinstance(st, ast.Match):
+            subject = self.ev(st.subject)
+            for case in st.cases:
+                saved = dict(self.env)
+                if self.match(case.pattern, subject, st) and \
+                        (case.guard is None or self.truth(self.ev(case.guard), case.guard)):
+                    self.block(case.body)
+                    return
+                self.env = saved
+            return
         self.bad(st, "statement")
+
+    def match(self, pat, v, node) -> bool:
+        if isinstance(pat, ast.MatchValue):
+            return self.cmp(ast.Eq(), v, self.ev(pat.value), node)
+        if isinstance(pat, ast.MatchSingleton):
+            return v is pat.value
+        if isinstance(pat, ast.MatchOr):
+            return any(self.match(p, v, node) for p in pat.patterns)
+        if isinstance(pat, ast.MatchAs):
+            if pat.pattern is not None and not self.match(pat.pattern, v, node):
+                return False
+            if pat.name is not None:
+                self.env[pat.name] = v
+            return True
+        if isinstance(pat, ast.MatchSequence) and isinstance(v, tuple):
+            if any(isinstance(p, ast.MatchStar) for p in pat.patterns) or len(v) != len(pat.patterns):
+                return False if len(v) != len(pat.patterns) else self.bad(pat, "star pattern")
+            return all(self.match(p, x, node) for p, x in zip(pat.patterns, v))
+        self.bad(pat, "match pattern")
 
     def assign(self, t, v):
         if isinstance(t, ast.Name):
@@ -326,6 +355,10 @@ class TableEval:
             return True
         if isinstance(n, ast.IfExp):
             return self.ev(n.body) if self.truth(self.ev(n.test), n.test) else self.ev(n.orelse)
+        if isinstance(n, ast.NamedExpr) and isinstance(n.target, ast.Name):
+            v = self.ev(n.value)
+            self.env[n.target.id] = v
+            return v
         self.bad(n, "expression")
 
     depth = 0
